@@ -108,10 +108,9 @@ def oracle_be(case, out):
     got = parse_ok(out[0]) if out else None
     want = norm_record(kind, rec)
     if got is None:
-        v = {"what": f"a well-formed big-endian {kind} announcement is rejected: {out[0][:60] if out else ''}", "op": case.lines[0][:400]}
-        if kind == "participant" and out and out[0] == "err:NotEnoughData":
-            v["cause"] = "big-endian-header-read-as-lease-duration"
-        return [v]
+        # (finding D-plist-1, cause `big-endian-header-read-as-lease-duration`, is repaired by fixes/D-plist-1.patch:
+        #  the old failure pattern is a plain violation now)
+        return [{"what": f"a well-formed big-endian {kind} announcement is rejected: {out[0][:60] if out else ''}", "op": case.lines[0][:400]}]
     bad = [k for k in want if got.get(k) != want[k]]
     if bad:
         return [{"what": f"a big-endian {kind} announcement decodes to other values in {bad[:4]}", "op": case.lines[0][:400],
@@ -205,17 +204,23 @@ def run(ctx):
 
 
 LEAN_MODULES = ["DustVerif.Props.C13"]
-LEVEL_TEXT = ("Kernel-checked Lean theorems over a generic parameter-list codec: for EVERY schema whose decode rows are consistent with its "
-              "encode rows (same pid, same value codec, same default; pairwise distinct pids) and every record whose values are in the value "
-              "domain of their codecs and whose parameters are shorter than 2^16 octets, from_bytes(into_bytes(d)) = d up to the documented "
-              "normalisation (C13_roundtrip); the four real schemas (transcribed tables) satisfy the side condition by `decide`; inserting any "
-              "parameter with a pid outside the schema anywhere before the sentinel never changes the decoded record, for arbitrary (not only "
-              "self-produced) well-delimited lists (C13_unknown_ignored). A 65 536-octet user_data wraps the u16 length field and the record "
-              "does not come back (C13_big_octets_counterexample, finding D17, open). The model is tied to the code by a differential run on "
-              "bytes and on decoded records through cfg-guarded mirror structs, and two oracles look at the implementation alone.")
+LEVEL_TEXT = ("Kernel-checked Lean theorems over a generic parameter-list codec: for EVERY byte order, EVERY schema whose decode rows are "
+              "consistent with its encode rows (same pid, same value codec, same default; pairwise distinct pids) and every record whose values "
+              "are in the value domain of their codecs and whose parameters are shorter than 2^16 octets, from_bytes(announcement of d) = d up "
+              "to the documented normalisation (C13_roundtrip); the four real schemas (transcribed tables) satisfy the side condition in both "
+              "byte orders by `decide` (C13_roundtrip_real); inserting any parameter with a pid outside the schema anywhere before the sentinel "
+              "never changes the decoded record, for arbitrary (not only self-produced) well-delimited lists (C13_unknown_ignored), and nothing "
+              "after the sentinel matters (C13_after_sentinel_ignored). A 65 536-octet user_data wraps the u16 length field and the record does "
+              "not come back (C13_big_octets_counterexample, finding D17, open). The repaired finding D-plist-1 (the iterator read the "
+              "encapsulation header as a parameter, so every big-endian participant announcement was rejected) is kept as a regression witness "
+              "on the earlier decoder (C13_big_endian_participant_counterexample / _fixed). The model is tied to the code by a differential run "
+              "on bytes and on decoded records through cfg-guarded mirror structs, and oracles look at the implementation alone (independent "
+              "PL_CDR parser on the emitted bytes, field-by-field round trip, unknown-parameter insertion, parameters after the sentinel, "
+              "big-endian announcements).")
 LEVEL_NOTE = ("Trusted: Lean kernel; Model/Plist.lean (transcription of PidIterator, CdrSerialize/CdrDeserialize, the XCDR1 paths the QoS structs "
               "take, the four schema tables); cfg(dust_dds_verif) mirror structs in verif_hooks.rs; Python reference PL_CDR codec and oracles. "
-              "Type information is opaque. The delivered model assumes fixes/D11.patch and fixes/D13.patch (the as-is behaviour is kept "
-              "behind a configuration flag and is what the check compares with when it detects an unpatched tree).")
+              "Type information is opaque. The delivered model is repository main + fixes/D-plist-1.patch; the check probes the tree under test "
+              "(exemplars of D11, D13, D-plist-1) and compares with the matching model variant, so on a tree without the patch the big-endian "
+              "oracle reports the defect again as a plain violation.")
 TECHNIQUE = "Lean 4 theorems over a schema-generic PL_CDR codec (round trip, unknown parameters ignored) + differential correspondence through cfg hooks"
 DESIGN_REF = "DESIGN.md section 5 C13"
